@@ -171,6 +171,10 @@ def solve_root_paths(prog: Program, values=()):
     st = State()
     for p in fi.params():
         st.env[p] = Rat.atom(p)
+    # the callers under analysis supply both bounds: the default-filling of lower / upper (by statements or by conditional
+    # expressions) is taken on its 'given' side only
+    st.facts["None == lower"] = False
+    st.facts["None == upper"] = False
     return fi, eng.run_function(st)
 
 
